@@ -165,19 +165,24 @@ Decide(s, c, common) ==
 Out(ok, a, e, af, ef) == [ok |-> ok, authReal |-> a, encReal |-> e, authFlag |-> af, encFlag |-> ef]
 Failed == Out(FALSE, FALSE, FALSE, FALSE, FALSE)
 
-\* intended design: REQUIRED means required - when encryption was decided and
-\* the key agreement cannot complete (client sent no key) the handshake fails.
+\* intended design.  security/auth.go setupStreamEncryption keys the stream
+\* whenever both ends sent an ECDH public key and share AES, whatever the
+\* levels (they only decide whether the lack of it is fatal).  REQUIRED means
+\* required: when encryption was decided and the key agreement cannot
+\* complete (the client sent no key) the handshake fails.
 Ideal(cmd, kind, want) ==
   LET p  == Policy(ptab)[cmd]
       cl == ClientLevels(kind, want)
       a  == Decide(p.auth, cl.auth, kind # "unauthenticated")
       e  == Decide(p.enc, cl.enc, TRUE)
   IN IF a = "fail" \/ e = "fail" THEN Failed
-     ELSE IF kind = "skipsKeyAgreement" /\ e = "yes"
-          THEN IF "TrustReportedEnc" \in Bug
-               THEN Out(TRUE, a = "yes", FALSE, a = "yes", TRUE)   \* today's code
-               ELSE Failed
-          ELSE Out(TRUE, a = "yes", e = "yes", a = "yes", e = "yes")
+     ELSE IF kind = "skipsKeyAgreement"
+          THEN IF e = "yes"
+               THEN IF "TrustReportedEnc" \in Bug
+                    THEN Out(TRUE, a = "yes", FALSE, a = "yes", TRUE)   \* today's code
+                    ELSE Failed
+               ELSE Out(TRUE, a = "yes", FALSE, a = "yes", FALSE)
+          ELSE Out(TRUE, a = "yes", TRUE, a = "yes", TRUE)
 
 \* everything that is physically possible for the client kind: an
 \* unauthenticated client proves no identity, a client that skips the key
